@@ -42,3 +42,10 @@ func RetentionDaysRel(cexNow string) float32 {
 	r := int64(replayVals["retention"]) - int64(replayVals[cexNow]) + time.Now().UnixNano()
 	return float32(float64(r) / 86400e9)
 }
+
+// LocalZone makes the process's local time zone an arbitrary fixed offset between UTC-12 and
+// UTC+14 (time.Now, time.Unix and Time.Local return times in it). Natively time.Local is set
+// to the counterexample's offset.
+func LocalZone() {
+	time.Local = time.FixedZone("cex", int(int64(replayVals["tz.offset"])))
+}
